@@ -333,3 +333,17 @@ Lemma charge_printed : forallb (prints FChg) [ORCA; G09; G16; NWChem; QChem; MOP
 Proof. vm_compute. reflexivity. Qed.
 Lemma mult_printed : forallb (prints FMult) [ORCA; G09; G16; NWChem; QChem] = true.
 Proof. vm_compute. reflexivity. Qed.
+
+(* every generated coordinate loop iterates over all atoms in order with x, y, z = atom.coord *)
+Definition loop_row_ok (r : program * loop) : bool := loop_ok (snd r).
+Lemma all_loops_ok : forallb loop_row_ok coord_loops = true.
+Proof. vm_compute. reflexivity. Qed.
+Definition program_eqb (p q : program) : bool :=
+  match p, q with
+  | ORCA, ORCA | G09, G09 | G16, G16 | NWChem, NWChem | QChem, QChem | XTB, XTB | MOPAC, MOPAC | XYZ, XYZ => true
+  | _, _ => false
+  end.
+(* each writer with a coordinate template has exactly one loop row (xTB's input is written by the xyz writer) *)
+Lemma loops_cover : forallb (fun p => Nat.eqb (List.length (filter (fun r => program_eqb p (fst r)) coord_loops)) 1)
+                            [ORCA; G09; G16; NWChem; QChem; MOPAC; XYZ] = true.
+Proof. vm_compute. reflexivity. Qed.
